@@ -450,3 +450,111 @@ func ruleReadFull(p *Prog, r *RuleResult) {
 }
 
 var _ = types.Typ
+
+// ---------------------------------------------------------------------------------------
+// R-BLOCK-BOUND: the encode task reads its (reused) input slot only within the current block
+// ---------------------------------------------------------------------------------------
+
+func init() {
+	register("R-BLOCK-BOUND", "before the forward transform the encode task hands its reused input buffer to other code only sliced to the current block length", false, ruleBlockBound)
+}
+
+func ruleBlockBound(p *Prog, r *RuleResult) {
+	ws := resolveSide(p, "Writer")
+	f := ws.fn
+	fname := p.FnName(f)
+	var fwd *ssa.Call
+	eachInstr(f, func(i ssa.Instruction) {
+		if c, ok := i.(*ssa.Call); ok {
+			if o := calleeObj(&c.Call); o != nil && o.Name() == "Forward" {
+				fwd = c
+			}
+		}
+	})
+	if fwd == nil {
+		undecided("anchor unresolved: Forward call in %s", fname)
+	}
+	// the whole-buffer values: loads of <task>.iBuffer.Buf and phis/appends of them
+	whole := map[ssa.Value]bool{}
+	var grow func(v ssa.Value, d int)
+	grow = func(v ssa.Value, d int) {
+		if whole[v] || d > 8 {
+			return
+		}
+		whole[v] = true
+		if refs := v.Referrers(); refs != nil {
+			for _, ref := range *refs {
+				switch x := ref.(type) {
+				case *ssa.Phi:
+					grow(x, d+1)
+				case *ssa.Call:
+					if b, ok := x.Call.Value.(*ssa.Builtin); ok && b.Name() == "append" && x.Call.Args[0] == v {
+						grow(x, d+1)
+					}
+				}
+			}
+		}
+	}
+	eachInstr(f, func(i ssa.Instruction) {
+		u, ok := i.(*ssa.UnOp)
+		if !ok || u.Op != token.MUL {
+			return
+		}
+		fa, ok := u.X.(*ssa.FieldAddr)
+		if !ok {
+			return
+		}
+		if outer := fieldVarOfLoad(fa.X); outer != nil && outer.Name() == "iBuffer" {
+			grow(u, 0)
+		}
+	})
+	// frozen exception: the magic-number probe reads a fixed 4..8 byte prefix and only sets an advisory hint
+	prefixOnly := map[string]string{"GetMagicType": "reads a fixed-size prefix of the block to set an advisory data-type hint; blocks shorter than the prefix are stored raw"}
+	n := 0
+	var k keyer
+	eachInstr(f, func(i ssa.Instruction) {
+		c, ok := i.(*ssa.Call)
+		if !ok {
+			return
+		}
+		if _, isB := c.Call.Value.(*ssa.Builtin); isB {
+			return
+		}
+		if instrReaches(fwd, c) || c == fwd {
+			return
+		}
+		for _, a := range c.Call.Args {
+			if !whole[a] {
+				continue
+			}
+			n++
+			name := describeCall(p, c)
+			key := k.key(fname, "whole-buffer-arg")
+			callee := c.Call.StaticCallee()
+			if callee != nil {
+				if why, ok := prefixOnly[callee.Name()]; ok {
+					r.exempt(key+" "+name, p.IPos(c), why)
+					continue
+				}
+			}
+			r.fail(key, p.IPos(c), fmt.Sprintf("%s receives the whole reused input buffer instead of the current block (data[0:blockLength]): bytes left over from the block previously handled by this task slot are read, so the encoder's decisions (and the bits produced) depend on which slot - hence which job count - processed the block", name))
+		}
+	})
+	// positive part: the hash and the transform see exactly the block
+	bounded := 0
+	eachInstr(f, func(i ssa.Instruction) {
+		c, ok := i.(*ssa.Call)
+		if !ok {
+			return
+		}
+		for _, a := range c.Call.Args {
+			if sl, ok := a.(*ssa.Slice); ok && whole[sl.X] && sl.High != nil && fieldVarOfLoad(stripConvert(sl.High)) != nil && fieldVarOfLoad(stripConvert(sl.High)).Name() == "blockLength" {
+				bounded++
+			}
+		}
+	})
+	if len(r.Findings) == 0 {
+		r.ok(fmt.Sprintf("%s: %d call(s) take the block as data[0:blockLength]; no call before Forward receives the whole slot (besides %d frozen prefix probe(s))", fname, bounded, n), p.Pos(f.Pos()))
+	}
+	r.floor(2, bounded, "calls taking data[0:blockLength]")
+}
